@@ -82,6 +82,9 @@ type Case struct {
 
 	ChainIDFails    int  `json:"chainid_fails,omitempty"`
 	ChainIDMismatch bool `json:"chainid_mismatch,omitempty"`
+	// ChainIDHangs: the chain-id probe that follows the ChainIDFails failed ones does not answer until the
+	// context ends (the client is cancelled in the middle of a provider call, not between two)
+	ChainIDHangs bool `json:"chainid_hangs,omitempty"`
 	LatestFail      bool `json:"latest_fail,omitempty"`
 	Fin1Fail        bool `json:"fin1_fail,omitempty"`
 	FilterFailAt    int  `json:"filter_fail_at"` // -1: never
